@@ -4,8 +4,8 @@
 From Coq Require Import Extraction ExtrOcamlBasic ExtrOcamlString.
 From MambaModel Require Import model.PyExpr model.CoreExpr gen.PrinterTable.
 From MambaModel Require Import model.LexTok gen.LexTables model.Lex.
-From MambaModel Require Import model.Core gen.Names model.Convert.
+From MambaModel Require Import model.Core gen.Names model.Convert model.PyStmt.
 Extraction Language OCaml.
 Extraction "model.ml" ptoks as_py py_parse pexp wf generated canon table_ok
   tokenize spell synthetic
-  gen.
+  gen plines module_layout_ok.
